@@ -155,7 +155,7 @@ CHECKS = {
              "mode without an explicit set.",
         note="Concrete override outcomes for concrete dict contents are not "
              "computed; escaping of the values is C02. "
-             "Known findings: a value-less static attribute keeps its empty '=' and quote when a computed value goes into it; a dictionary beats a later named statement that was merged at a static attribute's position; entity decoding before the split lets '&amp;...;' swallow the next statement."),
+             "Known findings: a value-less static attribute keeps its empty '=' and quote when a computed value goes into it; a dictionary beats a later named statement that was merged at a static attribute's position; entity decoding before the split lets '&amp;...;' swallow the next statement; 'default' on an attribute whose static value holds ${...} writes the expression's source."),
     "C09": dict(
         technique="writer/reader agreement of key expressions; emission-tree "
                   "rules for the macro prologue, define-slot and use-macro "
@@ -180,7 +180,9 @@ CHECKS = {
              "with a builtin symbol's name; slot fillers are handed over in "
              "the per-node copy of the scope the macro runs on (nothing "
              "stays in the caller's scope); a filler's globals reach the "
-             "macro body."),
+             "macro body.  Known findings: a filler for a slot the used "
+             "macro lacks falls through to a macro used inside it; slot "
+             "names that differ only in '-' / '_' share one key."),
     "C10": dict(
         technique="emission-tree rules for the i18n emitters; package-wide "
                   "census of translate(...) call fragments (sibling "
